@@ -96,8 +96,9 @@ def expected_tok(path, raw):
 
 
 def first_walk(s):
-    """get_broadcast_change_iter's walk as it stands: first key of each dict;
-    None when it hits an empty dict."""
+    """get_broadcast_change_iter's walk BEFORE the fix bdf8ea5: first key of each
+    dict; None when it hits an empty dict (used only to recognise a regression
+    to that defect in classify)."""
     path, v = (), s
     while isinstance(v, dict):
         if not v:
@@ -132,7 +133,8 @@ def py_mro(parents, name):
 # ---------------------------------------------------------------------------
 def reference(case):
     """Returns per-op reference states {(pt, ns, path): tok}, and the DB that
-    the *known defect* (first key only) would leave, for classification."""
+    the *fixed defect* (first key only, before bdf8ea5) would leave, so that a
+    regression to it is classified under its old signature."""
     names = set(case["parents"])
     ref, refdb, steps, raised_any = {}, {}, [], False
     for o in case["hist"]:
@@ -395,16 +397,17 @@ class BroadcastStream(Stream):
         par = {"root": [], "FAM": ["root"], "a": ["FAM"], "b": ["root"]}
         qs = [{"task": "a", "cycle": "3", "static": {"environment": {"A": "v2", "C": "v1"}}}]
         return [
-            # witness of the finding: multi-key API broadcast, second leaf lost on restart
+            # regression: witness of the fixed finding (bdf8ea5): multi-key API broadcast, whose
+            # second leaf used to be lost on restart
             {"kind": "multikey", "parents": par, "queries": qs, "hist": [
                 {"op": "put", "points": ["3"], "namespaces": ["a"],
                  "settings": [{"environment": {"A": "v1", "B": "v2"}}]}]},
-            # same defect, other face: an empty dict makes the change iterator raise
-            # after the in-memory update; the later setting never reaches the DB
+            # regression, same fixed defect: an empty dict used to make the change iterator
+            # raise after the in-memory update; the later setting never reached the DB
             {"kind": "emptydict", "parents": par, "queries": qs, "hist": [
                 {"op": "put", "points": ["3"], "namespaces": ["a"],
                  "settings": [{"environment": {}}, {"script": "v1"}]}]},
-            # key with a bracket: the DB key string does not parse back
+            # open finding: key with a bracket, the DB key string does not parse back
             {"kind": "bracket", "parents": par, "queries": qs, "hist": [
                 {"op": "put", "points": ["3"], "namespaces": ["a"],
                  "settings": [{"directives": {"-l s[1]": "v1"}}]}]},
@@ -795,10 +798,11 @@ META = {
         "updated rtconfig is the static one overridden by it, and a task-level own-cycle setting always wins; (clear) a "
         "leaf disappears iff it is targeted by the point/namespace/cancel filters, all others keep their value; (expire) "
         "exactly the leaves of integer points below the cutoff disappear, never '*'; (persistence) for every history of "
-        "put/clear/expire/flush whose accepted settings have one leaf each, the state reloaded from the DB has exactly "
+        "put/clear/expire/flush with any accepted settings, the state reloaded from the DB has exactly "
         "the in-memory leaves (invariant: DB = memory on the leaves, proved by induction over the history, including the "
-        "stable sort of get_broadcast_change_iter). The statement for multi-key setting dicts is REFUTED by a "
-        "machine-checked witness (known finding) and proved for the model of the proposed fix (c22_db_roundtrip_after_fix). "
+        "stable sort of get_broadcast_change_iter). This is the full statement, multi-key and empty setting dicts included, "
+        "since the fix bdf8ea5 of get_broadcast_change_iter; the pre-fix iterator is kept in the model only for the "
+        "historical theorems c22_pre_fix_* (refutation witness, single-leaf restriction). "
         "The model is tied to the code by differential runs of the real BroadcastMgr + real WorkflowDatabaseManager/sqlite "
         "(after every op, DB rows, reloaded state, get_broadcast/get_updated_rtconfig), compared inside Coq, and an "
         "independent Python reference of the property is the oracle."),
